@@ -717,7 +717,15 @@ def run_check(pid, tier, base_seed, out=sys.stdout):
         # ---- world-level extra stages (conformance against the real pool, ...)
         extra = {}
         if hasattr(w, "extra_stage"):
-            extra = w.extra_stage(tier, base_seed, farm) or {}
+            import inspect
+            if "stats" in inspect.signature(w.extra_stage).parameters:
+                agg = {}
+                for r in runs:
+                    for k_, n_ in r["stats"].items():
+                        agg[k_] = agg.get(k_, 0) + n_
+                extra = w.extra_stage(tier, base_seed, farm, stats=agg, runs=runs) or {}
+            else:
+                extra = w.extra_stage(tier, base_seed, farm) or {}
 
         # ---- order-independence stage: the same operations in another order / interleaving, each order in a pristine
         #      process; what each operation returns must not depend on what ran before it
